@@ -34,6 +34,15 @@ theorem undefined_rejected (T : Table) (D : Compound) (hc : D.canon = true) (hr 
     parse T D.text = .error .abort := by
   rw [Grammar.parse_yield T D hc, hr]
 
+/-- the canonical reading is unambiguous: two canonical derivations with the same text denote the
+    same structure and density (or are both undefined) -/
+theorem canonical_reading_unique (T : Table) (D₁ D₂ : Compound) (h₁ : D₁.canon = true)
+    (h₂ : D₂.canon = true) (ht : D₁.text = D₂.text) : D₁.result T = D₂.result T := by
+  have e₁ := Grammar.parse_yield T D₁ h₁
+  have e₂ := Grammar.parse_yield T D₂ h₂
+  rw [ht, e₂] at e₁
+  cases r₁ : D₁.result T <;> cases r₂ : D₂.result T <;> simp_all
+
 /-- the structure a derivation denotes has the composition the grammar documents: *a count
     multiplies everything in its group and repeated atoms add* (`den`), atom by atom … -/
 theorem yield_denotes (T : Table) (d : Comp) (fs : Items Cnt) (h : d.items T = some fs) (a : Atom) :
